@@ -2151,6 +2151,11 @@ func (d *DFA) IsMatchReverse(cache *DFACache, haystack []byte, start, end int) b
 // getStartStateForReverse returns the appropriate start state for reverse search.
 // For reverse search, we need to consider the context at the END of the search region.
 func (d *DFA) getStartStateForReverse(cache *DFACache, haystack []byte, end int) *State {
+	if verifhook.On {
+		// a reverse search (re)starts on this cache: the cache is per-search mutable scratch
+		verifhook.Emit("scr.begin", int(uintptr(unsafe.Pointer(cache))), 3)
+		verifhook.Gate("scr", uintptr(unsafe.Pointer(cache)))
+	}
 	// For reverse search, the "start" is at the end of the region
 	// Use StartText kind if at end of haystack, otherwise determine from next byte
 	var kind StartKind
